@@ -54,4 +54,23 @@ theorem tree_discard_any_global_schedule (cfg : Path → Cfg) (caps : Path → N
   refine ⟨h1, h2, fun hd => h3 ?_⟩
   have := hst p k; simp only [DV, Prod.mk.injEq] at this; rw [this.1]; exact hd
 
+
+open Firebolt.Exec in
+/-- **C04 on the tree**: a worker about to deliver to a child (or handler) marked `discard_on_full_buffer` can always
+take that step — whatever the state of the child and of the rest of the tree, in every reachable global state -/
+theorem tree_discarding_child_never_blocks (cfg : Path → Cfg) (caps : Path → Nat) (disc : Path → Bool) (sched : List (Path × Act)) (N : Net)
+    (hr : grun (ginit cfg caps disc) sched = some N) (p : Path) (w k : Nat) (x : Ev) (todo : List (Nat × Ev))
+    (hw : w < (cfg p).W) (hpc : (N.st p).pc w = .deliver ((k, x) :: todo)) (hd : disc (k :: p) = true) :
+    (gstep N p (.send w)).isSome = true := by
+  obtain ⟨_, hcfg, hst⟩ := reachable_ginv cfg caps disc sched N hr
+  subst hcfg
+  have hdk : ((N.st p).outs k).discard = true := by
+    have := hst p k; simp only [DV, Prod.mk.injEq] at this; rw [this.1]; exact hd
+  have hts := discard_never_blocks (N.st p) k x hdk
+  cases ht : trySend (N.st p) k x with
+  | none => simp [ht] at hts
+  | some s1 =>
+    simp [gstep, allowed, step, hw, hpc, ht]
+
+
 end Firebolt.C04
